@@ -1196,13 +1196,26 @@ func (conn *uTLSConn) ConnectionState() tls.ConnectionState {
 // which uses the specified clientHelloID to simulate the tls fingerprint.
 // Note this is valid for HTTP1 and HTTP2, not HTTP3.
 func (c *Client) SetTLSFingerprint(clientHelloID utls.ClientHelloID) *Client {
+	c.Transport.setTLSFingerprint(clientHelloID)
+	return c
+}
+
+// setTLSFingerprint installs the utls handshake on t. The handshake reads t's own TLS
+// config, and Transport.Clone installs it anew on the clone: a function bound to the
+// original would keep handshaking with the original's TLS settings.
+func (t *Transport) setTLSFingerprint(clientHelloID utls.ClientHelloID) {
 	fn := func(ctx context.Context, addr string, plainConn net.Conn) (conn net.Conn, tlsState *tls.ConnectionState, err error) {
 		colonPos := strings.LastIndex(addr, ":")
 		if colonPos == -1 {
 			colonPos = len(addr)
 		}
 		hostname := addr[:colonPos]
-		tlsConfig := c.GetTLSClientConfig()
+		if t.TLSClientConfig == nil {
+			t.TLSClientConfig = &tls.Config{
+				NextProtos: []string{"h2", "http/1.1"},
+			}
+		}
+		tlsConfig := t.TLSClientConfig
 		utlsConfig := &utls.Config{
 			ServerName:                  hostname,
 			Rand:                        tlsConfig.Rand,
@@ -1241,8 +1254,8 @@ func (c *Client) SetTLSFingerprint(clientHelloID utls.ClientHelloID) *Client {
 		}
 		return
 	}
-	c.Transport.SetTLSHandshake(fn)
-	return c
+	t.SetTLSHandshake(fn)
+	t.reinstallTLSFingerprint = func(tt *Transport) { tt.setTLSFingerprint(clientHelloID) }
 }
 
 // SetTLSHandshake set the custom tls handshake function, only valid for HTTP1 and HTTP2, not HTTP3,
